@@ -2,6 +2,8 @@ package checks
 
 import (
 	"fmt"
+	"regexp"
+	"strings"
 
 	"verif/harness/app"
 	"verif/harness/vk"
@@ -13,6 +15,9 @@ import (
 // the model by the main leg): the selected language has to travel from the session state through the context into
 // the store's key derivation (translation key, default key as fall-back) on every template and label lookup, in
 // long-lived and persisted operation.
+// first line of a page that shows an error of the recording resource (its own wording)
+var harnessErrLine = regexp.MustCompile(`^(no code for node "|no template for node "|no function for symbol "|function \S+ failed on call \d+)[^\n]*\n`)
+
 func c18DbStack(c *vk.Ctx) {
 	n := c.N(240, 8000)
 	type variant struct{ res, ses string }
@@ -74,10 +79,19 @@ func c18DbStack(c *vk.Ctx) {
 					map[string]interface{}{"app": a.Describe(), "config": cfg, "history": printableHist(hist[:step+1]), "variant": v})
 				break
 			}
-			if (g.ExecErr == "") != (w.ExecErr == "") || (g.FlushErr == "") != (w.FlushErr == "") || g.Cont != w.Cont || g.Out != w.Out {
+			gout, wout := g.Out, w.Out
+			if harnessErrLine.MatchString(wout) {
+				// the page starts with the text of a resource error, which is the resource's own wording: compare the rest
+				wout = wout[strings.Index(wout, "\n")+1:]
+				if k := strings.Index(gout, "\n"); k >= 0 {
+					gout = gout[k+1:]
+				}
+				c.Count("dbstack_pages_with_resource_error_line(line not compared)", 1)
+			}
+			if (g.ExecErr == "") != (w.ExecErr == "") || (g.FlushErr == "") != (w.FlushErr == "") || g.Cont != w.Cont || gout != wout {
 				comp := "result"
-				if g.Out != w.Out {
-					comp = "output:" + diffComponent(w.Out, g.Out)
+				if gout != wout {
+					comp = "output:" + diffComponent(wout, gout)
 				}
 				c.Violate("dbstack-differs:"+comp, fmt.Sprintf("step %d input %s (%s resource store, sessions %q): through resource.DbResource %s | through the recording resource %s", step, printable(hist[step]), v.res, v.ses, g.Brief(), w.Brief()), key,
 					map[string]interface{}{"app": a.Describe(), "config": cfg, "history": printableHist(hist[:step+1]), "variant": v})
